@@ -13,6 +13,7 @@
                      a JSON number, reads back as the widened binary32, within [0,1], no shorter decimal reads back.
    Definitions only; proofs are in C15/Proofs17.v. *)
 From RM Require Import C15.Model.
+From RM Require C19.Model.
 Open Scope Z_scope.
 
 (* (negative, m, e): the value is (-1)^negative * m * 2^e; None = infinity / NaN (serde_json writes null for those) *)
@@ -156,3 +157,12 @@ Definition conf_text_ok (bits : Z) (text : list Z) : bool :=
            && no_shorter m e c k
   | _, _ => false
   end.
+
+(* ------------------------------------------------------------------ the confidence of a reported bit flip
+   recomputed from the details the report prints next to it (C19's exact Flocq model of BitFlipDetails::confidence, statement list
+   regenerated from the source), as bits and as the text print_json writes *)
+Definition flip_details (b : flip) : C19.Model.details :=
+  {| C19.Model.d_nc := bf_nc b; C19.Model.d_null := bf_null b; C19.Model.d_low := bf_low b;
+     C19.Model.d_nearby := bf_nearby b; C19.Model.d_poison := bf_poison b |}.
+Definition flip_conf_bits (b : flip) : Z := C19.Model.confidence_bits (flip_details b).
+Definition flip_conf_text (b : flip) : list Z := render_f32 (flip_conf_bits b).
